@@ -77,7 +77,8 @@ def Dec.trunc (d : Dec) : Int :=
 `strconv.ParseInt(v, 0, bits)` / `ParseUint(v, 0, bits)`: optional sign (ParseInt only), base prefix `0x` / `0o` /
 `0b` (either letter case; needs at least one more character), a leading `0` alone means octal, `_` may separate digits
 (`underscoreOK`).  `strconv.ParseFloat`: decimal mantissa with an optional fraction (`.5`, `5.` allowed) and an
-optional decimal exponent; `inf` / `nan` / hexadecimal floats / `_` in floats are outside the model. -/
+optional decimal exponent, or `0x` hexadecimal mantissa with a binary exponent, `_` between digits; `inf` / `nan` are
+outside the model. -/
 
 /-- plain decimal without leading zeros (ports in the Spec, durations) -/
 def decimalNat (s : Str) : Option Nat :=
@@ -198,50 +199,102 @@ def parseDecAbs (s : Str) : Option (Nat × Nat) :=
       if ex ≥ 0 then some (mant * 10 ^ ex.toNat, places) else some (mant, places + ex.natAbs)
     | _, _ => none
 
-/-- `strconv.ParseFloat` on decimal literals (inf, nan, hex floats, `_`: "cannot cast" here) -/
+/-- hexadecimal digits of a mantissa (underscores already removed) -/
+def hexDigitsVal : Str → Nat → Option Nat
+  | [], acc => some acc
+  | c :: cs, acc =>
+    match digitVal c with
+    | some d => if d < 16 then hexDigitsVal cs (acc * 16 + d) else none
+    | none => none
+
+/-- text before / after the first `p` or `P` -/
+def splitP : Str → Str → Str × Option Str
+  | [], acc => (acc.reverse, none)
+  | c :: cs, acc => if c == 'p' || c == 'P' then (acc.reverse, some cs) else splitP cs (c :: acc)
+
+/-- the hexadecimal form of `strconv.ParseFloat` after `0x`: hex mantissa with an optional fraction, then a MANDATORY
+binary exponent `p[+-]digits`; the value `mant · 2^(exp − 4·fractionDigits)` as (mantissa, decimal places) -/
+def parseHexAbs (body : Str) : Option (Nat × Nat) :=
+  match splitP body [] with
+  | (_, none) => none
+  | (m, some e) =>
+    match splitDot m [] with
+    | (ip, fp?) =>
+      let fp := fp?.getD []
+      if ip.isEmpty && fp.isEmpty then none else
+      match hexDigitsVal (ip ++ fp) 0, parseExponent e with
+      | some mant, some ex =>
+        let e2 : Int := ex - 4 * (fp.length : Int)
+        if e2 ≥ 0 then some (mant * 2 ^ e2.toNat, 0) else some (mant * 5 ^ e2.natAbs, e2.natAbs)
+      | _, _ => none
+
+/-- an unsigned float literal as `strconv.readFloat` reads it: decimal or hexadecimal; `_` may separate digits
+(`underscoreOK` on the whole text), also in the exponent -/
+def parseFloatAbs (s : Str) : Option (Nat × Nat) :=
+  if s.contains '_' && !underscoreOK s then none else
+  let t := s.filter (· != '_')
+  match t with
+  | '0' :: x :: r => if x == 'x' || x == 'X' then parseHexAbs r else parseDecAbs t
+  | _ => parseDecAbs t
+
+/-- `strconv.ParseFloat` on decimal and hexadecimal literals (`inf` / `infinity` / `nan`: outside the model, "cannot
+cast" here) -/
 def parseDecLit (s : Str) : Option Dec :=
   match s with
-  | '-' :: r => (parseDecAbs r).map fun (m, e) => ⟨true, m, e⟩
-  | '+' :: r => (parseDecAbs r).map fun (m, e) => ⟨false, m, e⟩
-  | _ => (parseDecAbs s).map fun (m, e) => ⟨false, m, e⟩
+  | '-' :: r => (parseFloatAbs r).map fun (m, e) => ⟨true, m, e⟩
+  | '+' :: r => (parseFloatAbs r).map fun (m, e) => ⟨false, m, e⟩
+  | _ => (parseFloatAbs s).map fun (m, e) => ⟨false, m, e⟩
 
-/-! ## `time.ParseDuration` on integer components (`1m30s`, `250ms`, `-5s`, `0`) -/
+/-! ## `time.ParseDuration`: `[-+]?([0-9]*(\.[0-9]*)?unit)+`, or `0`
+
+Units ns, us (also written with either micro sign), ms, s, m, h.  Every component may have a fraction (`1.5s`, `.5m`,
+`1.s`; not `.s`).  Overflow is an error: an integer part above 2⁶³, a component or a running total above 2⁶³
+nanoseconds, a positive total of 2⁶³.  The fraction of a component is `⌊fraction · unit⌋` — Go computes it as
+`float64(f) * (float64(unit) / scale)`, which is that number whenever `10^digits` divides the unit (up to 9 digits for
+seconds, 6 for ms, 3 for µs, none but zeros for ns) or the fraction is 0; the generated inputs stay inside that. -/
 
 def unitNs (u : Str) : Option Nat :=
   if u == "ns".toList then some 1
-  else if u == "us".toList then some 1000
+  -- `µs` (U+00B5) and `μs` (U+03BC): the model's strings are the BYTES of the Go string (UTF-8)
+  else if u == "us".toList || u == [Char.ofNat 0xC2, Char.ofNat 0xB5, 's'] || u == [Char.ofNat 0xCE, Char.ofNat 0xBC, 's'] then some 1000
   else if u == "ms".toList then some 1000000
   else if u == "s".toList then some 1000000000
   else if u == "m".toList then some 60000000000
   else if u == "h".toList then some 3600000000000
   else none
 
-/-- state: digits of the current number, letters of the current unit, total so far -/
-def durLoop : Str → Str → Str → Nat → Option Nat
-  | [], ds, us, tot =>
-    if ds.isEmpty then none else
-    match unitNs us.reverse with
-    | some m => some (tot + digitsVal ds.reverse 0 * m)
+/-- a character that ends the number of a component (start of the unit) -/
+def unitChar (c : Char) : Bool := !(isDigitC c || c == '.')
+
+/-- the components of a duration text summed in nanoseconds; `fuel` bounds the number of components -/
+def durComps : Nat → Str → Nat → Option Nat
+  | 0, _, _ => none
+  | fuel + 1, s, tot =>
+    if s.isEmpty then some tot else
+    let ip := s.takeWhile isDigitC
+    let r1 := s.dropWhile isDigitC
+    let fp : Str := match r1 with | '.' :: r => r.takeWhile isDigitC | _ => []
+    let r2 : Str := match r1 with | '.' :: r => r.dropWhile isDigitC | _ => r1
+    if ip.isEmpty && fp.isEmpty then none else
+    let us := r2.takeWhile unitChar
+    let r3 := r2.dropWhile unitChar
+    match unitNs us with
     | none => none
-  | c :: cs, ds, us, tot =>
-    if isDigitC c then
-      if us.isEmpty then durLoop cs (c :: ds) us tot
-      else
-        match unitNs us.reverse with
-        | some m => if ds.isEmpty then none else durLoop cs [c] [] (tot + digitsVal ds.reverse 0 * m)
-        | none => none
-    else if ds.isEmpty then none
-    else durLoop cs ds (c :: us) tot
+    | some unit =>
+      let iv := digitsVal ip 0
+      if iv > 2 ^ 63 || iv > 2 ^ 63 / unit then none else
+      let v := iv * unit + digitsVal fp 0 * unit / 10 ^ fp.length
+      if v > 2 ^ 63 || tot + v > 2 ^ 63 then none else durComps fuel r3 (tot + v)
 
 def parseDurAbs (s : Str) : Option Nat :=
-  if s == ['0'] then some 0 else if s.isEmpty then none else durLoop s [] [] 0
+  if s == ['0'] then some 0 else if s.isEmpty then none else durComps (s.length + 1) s 0
 
 /-- nanoseconds -/
 def parseDuration (s : Str) : Option Int :=
   match s with
   | '-' :: r => (parseDurAbs r).map fun n => - (n : Int)
-  | '+' :: r => (parseDurAbs r).map fun n => (n : Int)
-  | _ => (parseDurAbs s).map fun n => (n : Int)
+  | '+' :: r => (parseDurAbs r).bind fun n => if n < 2 ^ 63 then some (n : Int) else none
+  | _ => (parseDurAbs s).bind fun n => if n < 2 ^ 63 then some (n : Int) else none
 
 /-! ## configuration values, decoded values -/
 
